@@ -148,7 +148,16 @@ EXPORT errno_t _wctomb_s_chk(int *restrict retvalp, char *restrict dest,
         }
     }
 
-    len = *retvalp = wctomb(dest, wc);
+    if (dest) {
+        /* wctomb stores up to MB_CUR_MAX bytes, whatever dmax is */
+        char tmpbuf[MB_LEN_MAX];
+        len = *retvalp = wctomb(tmpbuf, wc);
+        if (len > 0 && (rsize_t)len < dmax) {
+            memcpy(dest, tmpbuf, (size_t)len);
+        }
+    } else {
+        len = *retvalp = wctomb(dest, wc);
+    }
 
     if (likely(len > 0 && (rsize_t)len < dmax)) {
 #ifdef SAFECLIB_STR_NULL_SLACK
